@@ -629,6 +629,7 @@ class Engine(ExprMixin, CallMixin, StmtMixin):
         self.local_imports = {}
         self.local_defs = {}
         fdef, info = self.load(c)
+        self.cur_fdef = fdef
         loops = [n for n in ast.walk(fdef) if isinstance(n, (ast.For, ast.While))]
         loops.sort(key=lambda n: (n.lineno, n.col_offset))
         self.loop_ord = {id(n): i for i, n in enumerate(loops)}
